@@ -1,6 +1,115 @@
-(* C13 - placeholder while the proofs are being built; replaced below *)
-From Coq Require Import ZArith Lia.
+(* C13 - a MuSig secret nonce signs at most once, whatever happens.
+   Theorems about the history machine Model/MusigNonceSM.v (step : state -> op -> state * out) and the
+   functions of Model/Musig.v it is built from.  No premises: nothing here depends on the curve. *)
+From Coq Require Import ZArith List Bool.
+Require Import Spec.Params Spec.Curve Spec.Bytes Model.Base Model.Keys Model.Musig Model.MusigNonceSM.
+Require Import Proofs.BytesLemmas Proofs.MusigProofs.
+Import ListNotations.
 Local Open Scope Z_scope.
-Theorem placeholder_c13 : 1 + 1 = 2.
-Proof. reflexivity. Qed.
-Print Assumptions placeholder_c13.
+
+(* For every state and EVERY outcome (success; failure of any check after the load: NULL output, NULL or
+   invalid keypair, key mismatch, invalid cache, invalid session; failure of the load itself) the named
+   secret-nonce object is all-zero after a partial_sign step. *)
+Theorem partial_sign_always_wipes : forall P s k want_sig keypair cache session,
+  (k < length (slots s))%nat ->
+  nth_error (slots (fst (step P s (OSign (Some k) want_sig keypair cache session)))) k = Some (zeros 132).
+Proof. exact partial_sign_always_wipes_stmt. Qed.
+Print Assumptions partial_sign_always_wipes.
+
+Theorem partial_sign_api_always_wipes : forall P sec want_sig keypair cache session,
+  snd (partial_sign P (Some sec) want_sig keypair cache session) = Some (zeros 132).
+Proof. exact partial_sign_api_wipes_stmt. Qed.
+Print Assumptions partial_sign_api_always_wipes.
+
+Theorem zero_nonce_never_signs : forall P s k want_sig keypair cache session,
+  nth_error (slots s) k = Some (zeros 132) ->
+  let r := step P s (OSign (Some k) want_sig keypair cache session) in
+  o_ret (snd r) = 0 /\ o_ill (snd r) = 1 /\ siglog (fst r) = siglog s /\
+  o_sig (snd r) = (if want_sig then Some (zeros 36) else None).
+Proof. exact zero_nonce_never_signs_stmt. Qed.
+Print Assumptions zero_nonce_never_signs.
+
+(* after a partial_sign step on object k (whatever its outcome) and any further operations that do not
+   refill k (no nonce_gen / nonce_gen_counter / caller overwrite on k), partial_sign on k signs nothing *)
+Theorem used_nonce_never_signs : forall P s k w1 kp1 c1 se1 ops w2 kp2 c2 se2,
+  (k < length (slots s))%nat ->
+  forallb (fun o => negb (refills k o)) ops = true ->
+  let s1 := fst (step P s (OSign (Some k) w1 kp1 c1 se1)) in
+  let s2 := final P s1 ops in
+  let r := step P s2 (OSign (Some k) w2 kp2 c2 se2) in
+  o_ret (snd r) = 0 /\ siglog (fst r) = siglog s2 /\ o_sig (snd r) = (if w2 then Some (zeros 36) else None).
+Proof. exact used_nonce_never_signs_stmt. Qed.
+Print Assumptions used_nonce_never_signs.
+
+(* the nonce/key binding compares the whole point: a keypair whose public key differs from the stored one
+   in x OR in y (e.g. the keypair of the negated key) gets no signature, one callback, and the nonce is gone *)
+Theorem foreign_key_never_signs : forall P s k sec k1 k2 pk want_sig kp d kpk cache session,
+  nth_error (slots s) k = Some sec ->
+  secnonce_load P sec = Some (k1, k2, pk) -> keypair_load P kp = Some (d, kpk) -> pk <> kpk ->
+  let r := step P s (OSign (Some k) want_sig (Some kp) cache session) in
+  o_ret (snd r) = 0 /\ o_ill (snd r) = 1 /\ siglog (fst r) = siglog s /\
+  o_sig (snd r) = (if want_sig then Some (zeros 36) else None) /\
+  nth_error (slots (fst r)) k = Some (zeros 132).
+Proof. exact foreign_key_never_signs_stmt. Qed.
+Print Assumptions foreign_key_never_signs.
+
+Theorem negated_key_is_foreign : forall x y y' : Z, y <> y' -> Some (x, y) <> Some (x, y').
+Proof. exact negated_key_is_foreign. Qed.
+Print Assumptions negated_key_is_foreign.
+
+(* History invariant, by induction over the operation list: the ghost log of (generation event, signature)
+   pairs never holds two signatures for the same generation event. *)
+Theorem at_most_one_signature : forall P slots0 rands0 ops,
+  NoDup (map fst (siglog (fold_left (fun st o => fst (step P st o)) ops (init_state slots0 rands0)))).
+Proof. exact at_most_one_signature_fold. Qed.
+Print Assumptions at_most_one_signature.
+
+(* ... and the ghost log is faithful to what the steps output *)
+Theorem signature_is_logged : forall P s k sec want_sig keypair cache session,
+  nth_error (slots s) k = Some sec ->
+  let r := step P s (OSign (Some k) want_sig keypair cache session) in
+  (o_ret (snd r) = 1 ->
+     exists v, siglog (fst r) = (slot_id s k, v) :: siglog s /\ o_sig (snd r) = Some (psig_save v)) /\
+  (o_ret (snd r) <> 1 -> siglog (fst r) = siglog s /\ (o_sig (snd r) = None \/ o_sig (snd r) = Some (zeros 36))).
+Proof. exact signature_is_logged_stmt. Qed.
+Print Assumptions signature_is_logged.
+
+Theorem only_partial_sign_logs : forall P s o,
+  match o with OSign _ _ _ _ _ => True | _ => siglog (fst (step P s o)) = siglog s end.
+Proof. exact only_sign_logs_stmt. Qed.
+Print Assumptions only_partial_sign_logs.
+
+Theorem nonce_gen_contract : forall P s k want_pubnonce ri seckey pubkey msg32 cache extra32,
+  (k < length (slots s))%nat ->
+  let r := step P s (OGen (Some k) want_pubnonce ri seckey pubkey msg32 cache extra32) in
+  (o_ret (snd r) <> 1 -> nth_error (slots (fst r)) k = Some (zeros 132)) /\
+  (forall rb, get_rand s ri = Some rb -> is_zero_bytes rb = true ->
+        o_ret (snd r) = 0 /\ o_ill (snd r) = 0 /\ nth_error (slots (fst r)) k = Some (zeros 132)) /\
+  (o_ret (snd r) = 1 -> forall i, ri = Some i -> nth_error (rands (fst r)) i = Some (zeros 32)) /\
+  (o_ret (snd r) = 1 -> exists k1 k2 pk obj, pubkey = Some obj /\ pk_load obj = Some pk /\
+        nth_error (slots (fst r)) k = Some (secnonce_save k1 k2 pk) /\ skipn 68 (secnonce_save k1 k2 pk) = pk_obj pk).
+Proof. exact nonce_gen_contract_stmt. Qed.
+Print Assumptions nonce_gen_contract.
+
+(* the stored public key bytes ARE the supplied object when that object is canonical *)
+Theorem stored_pubkey_is_supplied : forall o pk, length o = 64%nat -> bytes_okP o -> pk_load o = Some pk -> pk_obj pk = o.
+Proof. exact stored_pubkey_is_supplied_stmt. Qed.
+Print Assumptions stored_pubkey_is_supplied.
+
+Theorem nonce_gen_counter_contract : forall P before want_pubnonce cnt keypair msg32 cache extra32,
+  let o := nonce_gen_counter_sec P true before want_pubnonce cnt keypair msg32 cache extra32 in
+  (ng_r o = false -> ng_sec o = zeros 132) /\
+  (ng_r o = true -> exists k1 k2 pk kpb, keypair = Some kpb /\ pk_load (skipn 32 kpb) = Some pk /\
+                    seckey_of_b32 P (firstn 32 kpb) <> None /\
+                    ng_sec o = secnonce_save k1 k2 pk /\ skipn 68 (ng_sec o) = pk_obj pk).
+Proof. exact nonce_gen_counter_contract_stmt. Qed.
+Print Assumptions nonce_gen_counter_contract.
+
+(* the premises of foreign_key_never_signs are satisfiable: a nonce bound to G, the keypair of -G (secret n-1) *)
+Example foreign_key_premises :
+  let sec := magic_secnonce ++ be_enc 32 1 ++ be_enc 32 2 ++ pk_obj (G secp256k1) in
+  let kp := be_enc 32 (cn secp256k1 - 1) ++ pk_obj (pneg secp256k1 (G secp256k1)) in
+  secnonce_load secp256k1 sec = Some (1, 2, G secp256k1) /\
+  keypair_load secp256k1 kp = Some (cn secp256k1 - 1, pneg secp256k1 (G secp256k1)) /\
+  G secp256k1 <> pneg secp256k1 (G secp256k1).
+Proof. vm_compute. repeat split; discriminate. Qed.
